@@ -10,7 +10,14 @@ class UnicodeSlicer(BaseSlicer):
     opentype = ("unicode",)
     slices = str
     def sliceBody(self, streamable, banana):
-        yield self.obj.encode("UTF-8")
+        try:
+            encoded = self.obj.encode("UTF-8")
+        except UnicodeEncodeError:
+            # e.g. a lone surrogate: this text has no UTF-8 form. Fail just
+            # this object (ABORT) instead of dropping the whole connection.
+            raise Violation("cannot serialize text which is not valid "
+                            "unicode: %r" % (self.obj,))
+        yield encoded
 
 class UnicodeUnslicer(LeafUnslicer):
     # accept a UTF-8 encoded string
